@@ -1003,6 +1003,26 @@ pub fn run(seed: u64, profile: &ConcProfile, replay: Option<Vec<u16>>) -> RunRep
                                 }
                             }
                         }
+                        // With background synchronisations running in
+                        // between, a class that lost all its resources for
+                        // a moment may have been dropped and created again
+                        // under a fresh name (as in C08, class names are
+                        // not compared, and a re-created class has finished
+                        // its roll).
+                        let aligned = match (&norm_a, &norm_b) {
+                            (Some(a), Some(b)) if profile.with_scheduler => {
+                                let (b2, a2) = crate::cuts::align_recreated(b, a);
+                                if a2 != *a || b2 != *b {
+                                    report.stats.insert(
+                                        "c18.class_names_aligned".into(), 1
+                                    );
+                                }
+                                (Some(a2), Some(b2))
+                            }
+                            (Some(a), Some(b)) => (Some(a.clone()), Some(b.clone())),
+                            _ => (None, None),
+                        };
+                        let (norm_a, norm_b) = aligned;
                         if let (Some(a), Some(b)) = (&norm_a, &norm_b) {
                             if a != b && std::env::var_os("VERIF_DEBUG").is_some() {
                                 eprintln!(
